@@ -336,6 +336,11 @@ impl World {
 
     fn node_id_string(&self, slot: usize) -> String {
         // clusters deliberately reuse addresses (ports) but not node ids
+        if self.seed % 5 == 3 && self.cfg.profile != Profile::TwoClusters {
+            // namesakes: slots 2k and 2k+1 share node id (and, until one restarts, generation): their ids differ by
+            // the address only
+            return format!("n{}", slot / 2);
+        }
         format!("n{}", slot)
     }
 
